@@ -90,6 +90,37 @@ func (c20) Generate(r *engine.Rand, index int, tier string) *engine.Scenario {
 	add(0xff26, 0x80)
 	add(0xff24, r.Byte())
 	add(0xff25, r.Byte()&routeMask)
+	if cls == "route" && r.Bool() {
+		// the channel kept off one side plays a note that runs out (length counter at zero, length register
+		// not rewritten) and is restarted again and again by its NRx4 alone, while the other channels play
+		// notes that end by their length counters
+		nrx1 := []uint16{0xff11, 0xff16, 0xff1b, 0xff20}
+		nrx2 := []uint16{0xff12, 0xff17, 0xff1a, 0xff21}
+		nrx4 := []uint16{0xff14, 0xff19, 0xff1e, 0xff23}
+		add(nrx2[xch], 0xf8)
+		if xch == 2 {
+			add(0xff1c, 0x20)
+		}
+		add(nrx1[xch], 0xff)
+		add(nrx4[xch], 0xc7)
+		at += uint64(r.Range(4100, 9000))
+		for i, k := 0, r.Range(3, 12); i < k; i++ {
+			for c := 0; c < 4; c++ {
+				if c == xch || !r.Chance(1, 2) {
+					continue
+				}
+				add(nrx2[c], 0xf8)
+				if c == 2 {
+					add(0xff1c, 0x20)
+				}
+				add(nrx1[c], 0x3f&^uint8(r.Intn(16)))
+				add(nrx4[c], 0xc0|r.Byte()&7)
+			}
+			at += uint64(r.Range(1, 20000))
+			add(nrx4[xch], 0xc0|r.Byte()&7)
+			at += uint64(r.Range(1, 70000))
+		}
+	}
 	for i := 0; i < n; i++ {
 		at += uint64(r.Intn(int(span) / n * 2))
 		switch k := r.Intn(16); {
